@@ -11,6 +11,15 @@ import IstioModel.C14.MonitorTheorems
 `clusters_unique_after_normalize`  names are unique after `normalizeClusters`; `normalize_first_wins`: the first definition of
                                    each name survives; nothing else is lost (`normalize_names`)
 `requested_names_answered`         every requested name is answered exactly once, defined or not
+
+What the LINK theorems (`routeConfig_domains_of_dedupe`, `cdsUnique_of_normalize`, `closure_of_answered`) are and are not:
+they are CONDITIONAL - "IF the names / domains of a snapshot are the output of the kernel, THEN the monitor clause holds".
+The hypothesis is an equation between the real output of generation and the model applied to the kernel's real input; the
+kernels' inputs inside a real push are not observable, so no run establishes that equation. What is established per run is
+(a) kernel = model on the inputs the kernel streams feed (T-diff), and (b) the clause itself on every real snapshot (T-mon).
+`answered` is the specification of "always answer" written as a function, so `requested_names_answered` is true by
+construction; its content lies in the `answer` stream (the real generators equal it). `one_entry_per_key`
+(ListenerConflictTheorems) likewise restates that the listener map is a map; the exhaustive table ties the decision.
 -/
 namespace IstioModel.C14
 
